@@ -19,6 +19,24 @@ ROWS = [
  ("C10-2","C10","oned","Code 93 reader checksum uses a helper alphabet with '/' and '+' exchanged","Code 93 symbols containing '/' or '+'",["C10:S-C93W (reported undecided: the transition no longer folds)"],False,""),
  ("C11-1","C11","aztec","codeword-size ladder replaced by a table one entry short: 22 layers -> 12 bits","a full-range symbol with exactly 22 layers",["C11:S-FIELD (reported undecided: ladder shape no longer recognised)"],False,""),
  ("C11-2","C11","aztec","compact mode message data-codeword mask 0x3F -> 0x1F","a compact symbol with 33..64 data codewords",["C11:T-AZTECMODE"],True,"added rule T-AZTECMODE (mode message split folded over all 8-/16-bit messages)"),
+ ("C12-1","C12","qrcode","getAlphanumericCode table guard < weakened to <=","QR content with a backtick (0x60) before any other non-alphanumeric byte: index out of range [96]",["C12:E-TABLEIDX","C01:S-ALNUM (fold fails)"],True,"added rule E-TABLEIDX (interval analysis of indices into package-level literal tables); it also exposed a genuine Code 128 defect, fixed in 0c8bb80"),
+ ("C12-2","C12","datamatrix","Data Matrix size test || turned into &&","exactly one requested dimension below the symbol size (e.g. 100x0 panics, 100x5 truncates)",["C14:R-SIZE"],False,"C12 itself does not decide the size clause (see its note); C14 does"),
+ ("C13-1","C13","qrcode/encoder","provisional version guess uses version 40's count width","content exactly at the capacity of version 9 or 26",["C13:M-FIRSTFIT-QR"],False,""),
+ ("C13-2","C13","datamatrix/encoder","max-size filter compares the symbol height with the hint's width","a MAX_SIZE hint wider than high",["C13:M-FIRSTFIT-DM"],False,""),
+ ("C14-1","C14","qrcode","SetRegion rewritten word-wise, one interior word short","module blocks >= 32 px wide spanning three storage words (scale >= 34)",["C16:S-WHOLE","C14:S-WHOLE","C16:S-BITOPS (undecided)"],True,"added rule S-WHOLE (whole-operation folding with bounded unrolling), run under C16 and C14"),
+ ("C14-2","C14","oned","MARGIN hint stored into the writer's defaultMargin","two Encode calls on one 1-D writer: hinted margin, then no hint",["C14:W-WRITER"],True,"added rule W-WRITER (no store into an existing writer object on encode paths)"),
+ ("C15-1","C15","qrcode","Kanji range split < 0x1F00 turned into <=","Shift_JIS Kanji mode content containing code 0xE040",["C01:S-SEG","C15:S-SEG"],True,"the segment transition rule S-SEG (built for C01) now also runs under C15"),
+ ("C15-2","C15","qrcode","ASCII ECI row 170 mistyped as 17 (overwrites ISO-8859-15)","CHARACTER_SET=ISO-8859-15 with a non-ASCII character, or a symbol carrying ECI 17/170",["C15:T-ECI"],False,""),
+ ("C16-1","C16",".","SetRange early return for the empty range removed","exactly SetRange(0, 0)",["C16:S-WHOLE (reported undecided: negative shift count)"],True,"added rule S-WHOLE"),
+ ("C16-2","C16",".","Rotate180 middle-row swap bound rowSize/2 -> (rowSize-1)/2","odd height and an even number of words per row (widths 33..64, 97..128)",["C16:S-WHOLE"],True,"added rule S-WHOLE"),
+ ("C17-1","C17",".","Gray images copied row-wise with y*width instead of y*Stride","a SubImage of a wider *image.Gray (Stride != width)",["C17:T-LUMA (reported undecided: the branch no longer folds)"],False,""),
+ ("C17-2","C17",".","block count computed as (n + 6) >> 3","width or height = 1 mod 8 (41, 49, ...) with black pixels in the last column/row",["C17:M-HYBGUARD"],False,""),
+ ("C18-1","C18","qrcode","Reed-Solomon generator cache moved onto the shared GenericGF object","two goroutines encoding QR symbols needing a not yet cached EC block size (needs -race to fail reliably)",["C18:W-STORE"],False,""),
+ ("C18-2","C18","oned","one package-level UPC/EAN extension decoder shared by all readers","two goroutines decoding symbols with an EAN-2/EAN-5 add-on",["C18:W-STORE"],False,""),
+ ("C19-1","C19","common","second-pass bottom-edge nudge pulls to width-1 instead of height-1","non-square image and a row ending with y in [h, h+1)",["C19:S-NUDGE"],False,""),
+ ("C19-2","C19","common","affine shortcut taken when dx3 == 0 || dy3 == 0","a keystone trapezoid with exactly one of the two sums zero",["C19:T-PERSP"],False,""),
+ ("C20-1","C20","oned","per-run early-out > turned into >=","a run deviating by exactly the allowed variance (e.g. limit 0.5, even module width)",["C20:M-INF"],False,""),
+ ("C20-2","C20","oned","RecordPatternInReverse row-ended check >= 0 turned into > 0","the recorded runs start exactly at pixel 0 with an edge run >= 2 px",["C20:M-RECORD"],False,""),
 ]
 for (sid, prop, pkg, breaks, needs, caught, missed, strengthened) in ROWS:
     d = "/verif/seeded/" + sid
